@@ -445,10 +445,15 @@ def _c(t: T, d, ctx: Ctx, cons: Dict[str, Any]):
                 if msgs:
                     raise Rejected(E(msgs))
         return d
-    if isinstance(t, Lit):
-        return _lit([(v, v) for v in t.values], d, ctx)
-    if isinstance(t, EnumT):
-        return _lit([(v, VEnum(t.name, n)) for n, v in t.members], d, ctx)
+    if isinstance(t, (Lit, EnumT)):
+        pairs = [(v, v) for v in t.values] if isinstance(t, Lit) else [(v, VEnum(t.name, n)) for n, v in t.members]
+        out = _lit(pairs, d, ctx)
+        # constraints given to a literal / enum position bear on the datum (by its own JSON class)
+        dcls = json_class(d)
+        msgs = check_cons(cons, d, dcls, ctx) if cons and dcls in (int, float, str) else []
+        if msgs:
+            raise Rejected(E(msgs))
+        return out
     if isinstance(t, Uni):
         return _union(t, d, ctx, cons)
     if isinstance(t, Coll):
